@@ -37,6 +37,8 @@ type Exec struct {
 	epoch    int
 	quietInv map[string]bool
 	topRets  []retPoint
+	globalObjs map[string]*ssa.Global
+	epochNext map[int]*Term
 	curNode  *node
 	lastNodes []*node
 }
@@ -104,7 +106,36 @@ func (x *Exec) heap(st *State, key string, s *Sort) *Term {
 	}
 	t := Const("H."+sanitize(ikey), s)
 	x.initHeap[ikey] = t
+	nextAt := Const("next0", IntS)
+	if ep > 0 {
+		if nx, ok := x.epochNext[ep]; ok {
+			nextAt = nx
+		}
+	}
+	x.refBoundFact(t, nextAt)
 	return t
+}
+
+// refBoundFact: every reference stored in a heap component version is an object that existed when that version
+// came into being (it is below the allocation watermark of that moment) — so objects allocated later are
+// different from everything the version holds.
+func (x *Exec) refBoundFact(c *Term, nextAt *Term) {
+	if c.S.Kind != "Array" || c.S.Idx != IntS || nextAt == nil {
+		return
+	}
+	save := x.VC.CurTag
+	x.VC.CurTag = nil
+	defer func() { x.VC.CurTag = save }()
+	switch {
+	case c.S.Elem == IntS:
+		o := x.VC.Fresh("ro", IntS)
+		x.VC.AssumeForall([]*Term{o}, True, And(IntCmp(">=", Select(c, o), IntLit(0)), IntCmp("<", Select(c, o), nextAt)), "ref-bound")
+	case c.S.Elem.Kind == "Array" && c.S.Elem.Elem == IntS:
+		o := x.VC.Fresh("ro", IntS)
+		k := x.VC.Fresh("rk", c.S.Elem.Idx)
+		e := Select(Select(c, o), k)
+		x.VC.AssumeForall([]*Term{o, k}, True, And(IntCmp(">=", e, IntLit(0)), IntCmp("<", e, nextAt)), "ref-bound")
+	}
 }
 
 func (x *Exec) setHeap(st *State, key string, t *Term, obj *Term) {
@@ -751,14 +782,22 @@ func (x *Exec) mergeStates(c *Term, a, b *State) *State {
 			n.Locks["?"+k] = true
 		}
 	}
+	var newEpochs []int
 	for k, ea := range a.Havoc {
 		if eb, ok := b.Havoc[k]; !ok || eb != ea {
 			x.epoch++
 			n.Havoc[k] = x.epoch
+			newEpochs = append(newEpochs, x.epoch)
 		}
 	}
 	if a.Next != b.Next {
 		n.Next = x.VC.Def("next", Ite(c, a.Next, b.Next))
+	}
+	for _, ep := range newEpochs {
+		if x.epochNext == nil {
+			x.epochNext = map[int]*Term{}
+		}
+		x.epochNext[ep] = n.Next
 	}
 	// defers: union by identity
 	have := map[interface{}]bool{}
